@@ -252,6 +252,20 @@ Proof.
 Qed.
 Print Assumptions C15_model_satisfies_unit_clauses.
 
+(* the keeper's stagnation clock restarts exactly on the first recorded population and on improving ones, and
+   within a day the reported stagnation time is the elapsed time since then cut to whole seconds: the clause
+   checked on the real GenerationKeeper under a controlled clock holds of the model for every append sequence *)
+Theorem C15_keeper_stagnation_clock : forall t_create apps,
+  uholds (UKeeper t_create apps (keeper_run (keeper_init t_create) apps)) = true.
+Proof. exact model_keeper_clock_holds. Qed.
+Print Assumptions C15_keeper_stagnation_clock.
+
+Theorem C15_stagnation_time_whole_seconds : forall now start,
+  (0 <= now - start)%Q -> (now - start < 1440)%Q ->
+  (stag_duration now start <= now - start)%Q /\ (now - start - (1 # 60) < stag_duration now start)%Q.
+Proof. exact stag_duration_bounds. Qed.
+Print Assumptions C15_stagnation_time_whole_seconds.
+
 (* the boolean clauses evaluated on observed runs (rcheck) decide the stated properties *)
 Theorem C15_run_oracle_decides : forall r,
   (h_generations r = true <->
